@@ -490,6 +490,58 @@ def expiry(ctx):
     ctx.bound("two stored records with arbitrary timestamps (42 bit) and validities 0..10^6 s in either order of expiry; arbitrary real clock, truncated to seconds as the code does")
 
 
+@vc("C12", "O7-request-after-the-sweep-returns-what-is-stored")
+def sweep_then_request(ctx):
+    """two steps on one state: the time-validity sweep, then an unfiltered request - what is returned is exactly what the sweep left in the store
+    (a lapsed object is never returned again); catches state that a one-step VC from the constructor's defaults cannot see (caches, snapshots)"""
+    h = Ldm()
+    I = h.I
+    I.call_function(LDMMaintenance.check_and_delete_time_validity, [h.maint])
+    n_sweep = len(I.raises)
+    now = h.clock.reads[0][1]
+    now_its = (z3.ToInt(now) - ITS_EPOCH + ELAPSED_SECONDS) * 1000
+    app = I.int_var("app", 0, 30)
+    types = (1, 2, 16, 6)
+    req = Obj(LC.RequestDataObjectsReq, dict(application_id=app, data_object_type=types, priority=None, order=None, filter=None))
+    resp = I.call_function(InterfaceLDM4.request_data_objects, [h.if4, req])
+    exc = cond_or(c for c, _ in I.raises)
+    reg = h.registered("consumer", app, post=False)
+    vars_ = h.vars()
+    vars_["app"] = app
+    objs = path_field(resp, "data_objects")
+
+    def member(rec_d):
+        def one(v):
+            if isinstance(v, SList):
+                return z3.Or(*[z3.And(I._lb(c), z3.BoolVal(x is rec_d)) for c, x in v.items]) if v.items else FALSE
+            if isinstance(v, (tuple, list)):
+                return z3.BoolVal(any(x is rec_d for x in v))
+            return FALSE
+        if isinstance(objs, Guarded):
+            return z3.Or(*[z3.And(c, one(x)) for c, x in objs.alts])
+        return one(objs)
+
+    def replay(vals):
+        db, maint, svc, if3, if4 = h.real(vals)
+        with h.patched_clock(vals):
+            maint.check_and_delete_time_validity()
+            stored = [v for k_, v in sorted(db.database.items())]
+            rr = if4.request_data_objects(LC.RequestDataObjectsReq(vals["app"], types, None, None, None))
+        want = stored if vals["app"] in svc.data_consumer_its_aid else []
+        got = list(rr.data_objects)
+        same = sorted(map(repr, got)) == sorted(map(repr, want))
+        return not same, f"after the sweep the store holds {len(stored)} object(s), the request of a consumer (registered={vals['app'] in svc.data_consumer_its_aid}) returned {len(got)}"
+    expired = [r.validity * 1000 + r.ts < now_its for r in h.recs]
+    ctx.witness("sweep+request-reach-one-removed-one-returned", I, z3.And(z3.Not(exc), reg, h.present[0], h.present[1], expired[0], z3.Not(h.lookup(h.keys[0])[0]),
+                                                                          member(h.recs[1].d)), vars=vars_, validate=lambda v: not replay(v)[0])
+    ctx.prove("sweep+request-no-exception", I, exc, vars=vars_, replay=replay)
+    ctx.prove("sweep+request-lapsed-object-never-returned", I, z3.Or(*[z3.And(h.present[i], expired[i], member(h.recs[i].d)) for i in range(len(h.recs))]),
+              vars=vars_, replay=replay, desc="an object whose validity lapsed before the sweep is not returned by a request that follows the sweep")
+    ctx.prove("sweep+request-returns-exactly-the-store", I, z3.Or(*[member(h.recs[i].d) != z3.And(reg, h.lookup(h.keys[i])[0]) for i in range(len(h.recs))]),
+              vars=vars_, replay=replay, desc="the request returns exactly the objects the sweep left in the store")
+    ctx.bound("two stored records, one sweep followed by one unfiltered request for all four types; other two-step compositions (delete / update then request) are not enumerated")
+
+
 @vc("C12", "O6-collect-trash")
 def collect_trash(ctx):
     _expiry(ctx, "collect-trash", LDMMaintenance.collect_trash, True)
